@@ -16,7 +16,12 @@ ASSUMPTIONS = [
     "data points are pairwise distinct; a query whose k-th and (k+1)-th nearest distances differ by less than 1e-9 (relative) is not compared (ties)",
     "mask comparisons skip queries with |d_min - maxdist| <= 1e-9*maxdist, except on the integer lattice with integer maxdist where squared distances are compared exactly",
 ]
-REDS = {"mean": np.mean, "median": np.median, "min": np.min, "max": np.max}
+def _rms(a, axis=None):
+    return np.sqrt(np.mean(np.square(np.asarray(a, dtype="float64")), axis=axis))
+
+
+# (the last three are not the identity on a single value: the reduction must be applied for k = 1 as well)
+REDS = {"mean": np.mean, "median": np.median, "min": np.min, "max": np.max, "rms": _rms, "ptp": np.ptp, "std": np.std}
 
 
 @st.composite
@@ -204,7 +209,8 @@ def mask_cases(draw):
                 a = a[::-1]
             case[key] = a.tolist()
         case["axes_kind"] = axes_kind
-        case["nvars"] = draw(st.integers(1, 2))
+        case["nvars"] = draw(st.integers(1, 3))
+        case["holes"] = draw(st.sampled_from(["none", "none", "differ", "same"]))  # cells that are blank already, per variable or in all of them
         case["grid_build"] = draw(st.sampled_from(["dataset", "dataarray"]))
     if mode == "lattice" and proj is None:
         case["maxdist"] = float(draw(st.sampled_from([0, 1, 2, 3, 5, 10, 13])))
@@ -234,6 +240,9 @@ def check_mask(case, ctx):
         q = np.column_stack([ee.ravel(), nn.ravel()])
         qshape = ee.shape
         values = [np.arange(ee.size, dtype="float64").reshape(ee.shape) + 1 + 1000 * k for k in range(case["nvars"])]
+        if case.get("holes", "none") != "none":
+            for k, v in enumerate(values):
+                v[(np.arange(v.size).reshape(v.shape) + (2 * k if case["holes"] == "differ" else 0)) % 3 == 0] = np.nan
         if case.get("grid_build") == "dataarray":
             grid = xr.DataArray(values[0], coords={"easting": east, "northing": north}, dims=("northing", "easting"), name="v0").to_dataset()
             for k, v in enumerate(values[1:], start=1):
@@ -245,8 +254,9 @@ def check_mask(case, ctx):
         for k, v in enumerate(values):
             got = out["v%d" % k].values
             ctx.check(got.shape == v.shape, "masked grid changed shape")
-            ctx.check(np.array_equal(np.isnan(got), ~arr_mask), "the grid form blanks different cells than the array form marks False")
-            ctx.check(np.array_equal(got[arr_mask], v[arr_mask]), "the grid form changed values it kept")
+            ctx.check(np.array_equal(np.isnan(got), ~arr_mask | np.isnan(v)), "the grid form blanks different cells (variable %d of %d, %d cell(s) blank beforehand) than the array form marks False",
+                      k, len(values), int(np.isnan(v).sum()))
+            ctx.check(np.array_equal(got[arr_mask], v[arr_mask], equal_nan=True), "the grid form changed values it kept")
         mask = arr_mask
     pd_ = d if proj is None else np.transpose(proj(d[:, 0], d[:, 1]))
     pq = q if proj is None else np.transpose(proj(q[:, 0], q[:, 1]))
